@@ -587,8 +587,16 @@ def run_case(ctx):
             d, n = G.forced_distribution(rng, style)
         rounded = sum(int(round(p * n)) for p in d.values())
         ctx.describe(f"{cls}[{style}] n={n} dist={d!r}", abs(rounded - n) >= (2 if cls == "represent_crowded" else 1))
-        keyform = rng.choice(["str", "tuple"])
-        dist = MeasurementOutcomeDistribution(dict(d) if keyform == "str" else {tuple(int(c) for c in k): v for k, v in d.items()})
+        keyform = rng.choice(["str", "tuple", "tuple", "levels"])
+        if keyform == "levels":
+            # the same distribution over outcomes of subsystems with more than two levels (an outcome is a tuple of
+            # non-negative integers; values of two and three digits included): bit b at position i -> levels[i][b]
+            w = len(next(iter(d)))
+            levels = [rng.sample([0, 1, 2, 3, 7, 9, 10, 11, 12, 25, 100, 101], 2) for _ in range(w)]
+            ctx.mon.note("represent:multi-level-outcomes")
+            dist = MeasurementOutcomeDistribution({tuple(levels[i][int(c)] for i, c in enumerate(k)): v for k, v in d.items()})
+        else:
+            dist = MeasurementOutcomeDistribution(dict(d) if keyform == "str" else {tuple(int(c) for c in k): v for k, v in d.items()})
         Measurements.get_measurements_representing_distribution(dist, n)
         return
 
